@@ -192,6 +192,11 @@ inline bool get_arith_uint256(const Value& v, arith_uint256& a) {
 }
 
 inline void add(std::vector<uint8_t>& data, arith_uint256 a, arith_uint256 b, arith_uint256 g) {
+    if (!g.EqualTo(0)) {
+        // the single conditional subtraction below is only enough for operands that are themselves reduced (10 + 10 mod 3 gave 17)
+        a = a % g;
+        b = b % g;
+    }
     arith_uint256 c = a + b;
     if (!g.EqualTo(0) && (c >= g || c < a)) {
         // left case is trivial. right case:
